@@ -50,7 +50,7 @@ var Check = &mc.Check{
 	Replay: replay,
 	Assumptions: []string{
 		"requests are dispatched with Engine.ServeHTTP on a RequestContext obtained from Engine.NewContext and recycled with RequestContext.Reset (no wire parsing: that is C01..C03)",
-		"Use() on an ancestor group after a descendant group object was created is enumerated, but whether it reaches routes registered on the descendant is not determined by the property: such a case is judged only by the order invariants",
+		"Use() on an ancestor (engine or outer group) after a descendant group object was created, before the descendant's route is registered: the property demands that it precedes the route's handlers; hertz leaves it out (known finding, reported per site class and route) - the rest of the chain is then judged on the demanded chain minus exactly the handlers left out, as established by one probe request per route",
 		"HandleMethodNotAllowed=true; chains have at most 14 handlers (far below the AbortIndex of 63)",
 	},
 }
@@ -190,6 +190,9 @@ type Case struct {
 	Req     ReqSpec   `json:"req"`
 	Desc    string    `json:"desc,omitempty"`
 	PartC   *PartC    `json:"part_c,omitempty"`
+	// Registration: the case is about which handlers the registration program puts into the chain of Req.Kind
+	// (middleware the property demands but the route's chain leaves out), not about one behaviour vector
+	Registration bool `json:"registration,omitempty"`
 }
 
 func (s Shape) valid() bool {
@@ -245,7 +248,7 @@ type ids struct {
 }
 
 // refChains is the registration reference ("groupref"): the chain every request kind must
-// run, and the handlers whose presence the property does not determine.
+// run, and the late handlers (optional) that the literal chain holds in addition.
 //
 //   - a route's chain is, outermost level first, what was attached to each level of its
 //     group nest before the next level was created (Group() arguments, then Use), then what
@@ -253,7 +256,27 @@ type ids struct {
 //   - middleware attached after the registration does not apply;
 //   - the 404 / 405 chains are all engine-level middleware (whenever attached) followed by
 //     the NoRoute / NoMethod handlers.
-func refChains(sh Shape, d *ids) (chains [nKinds][]uint8, optional [nKinds]uint64) {
+//
+// literal is the chain the property's words demand: "middleware attached to the engine or to a group before a route is
+// registered always precedes that route's own handlers (outermost group first)" - it also holds what was attached to an
+// outer level after the inner group object had been created (the handlers marked in optional). chains is literal
+// without those: the behaviour vectors of the enumeration are indexed by it.
+func refChains(sh Shape, d *ids) (chains [nKinds][]uint8, optional [nKinds]uint64, literal [nKinds][]uint8) {
+	defer func() {
+		var l1, l2 []uint8
+		for k := 0; k <= sh.Depth; k++ {
+			l1 = append(append(l1, d.grp[k]...), d.pre[k]...)
+			l2 = append(append(l2, d.grp[k]...), d.pre[k]...)
+			if k < sh.Depth {
+				l1 = append(l1, d.mid[k]...)
+				l2 = append(l2, d.mid[k]...)
+			}
+			l2 = append(l2, d.post[k]...)
+		}
+		literal = chains
+		literal[kR1] = append(l1, d.own1...)
+		literal[kR2] = append(l2, d.own2...)
+	}()
 	var r1, r2 []uint8
 	for k := 0; k <= sh.Depth; k++ {
 		r1 = append(r1, d.grp[k]...)
@@ -361,9 +384,13 @@ type rig struct {
 	sites    []site
 	chains   [nKinds][]uint8
 	optional [nKinds]uint64
-	method   [nKinds]string
-	path     [nKinds]string
-	m        model
+	// judged: the literal chain without the demanded handlers that the engine's registration left out (missing);
+	// everything else about the chain is judged on it
+	judged  [nKinds][]uint8
+	missing [nKinds]uint64
+	method  [nKinds]string
+	path    [nKinds]string
+	m       model
 }
 
 func (r *rig) h(class, level int) (app.HandlerFunc, uint8) {
@@ -436,12 +463,69 @@ func build(sh Shape) *rig {
 	if sh.NWhen == 2 {
 		setN()
 	}
-	r.chains, r.optional = refChains(sh, &r.d)
+	var literal [nKinds][]uint8
+	r.chains, r.optional, literal = refChains(sh, &r.d)
 	r.method = [nKinds]string{"GET", "POST", "GET", "POST", "PUT"}
 	r.path = [nKinds]string{prefix + "/r", prefix + "/s", "/zz", prefix + "/r", prefix + "/r"}
 	r.ctx = e.NewContext()
 	r.st.limit = 16*len(r.sites) + 64
+	// which of the demanded late handlers did the registration put into the chains? One request per route with
+	// transparent handlers tells (registration is over: the answer is a constant of the engine).
+	r.judged = literal
+	for _, kind := range []int{kR1, kR2} {
+		if r.optional[kind] == 0 {
+			continue
+		}
+		for i := range r.sites {
+			r.st.beh[i] = bN
+		}
+		r.dispatch(kind)
+		var present uint64
+		for _, e := range r.st.tr {
+			if int(e>>8)&7 == evEnter {
+				present |= 1 << uint8(e&0xff)
+			}
+		}
+		r.missing[kind] = r.optional[kind] &^ present
+		var ch []uint8
+		for _, id := range literal[kind] {
+			if r.missing[kind]&(1<<id) == 0 {
+				ch = append(ch, id)
+			}
+		}
+		r.judged[kind] = ch
+	}
 	return r
+}
+
+// registrationFindings reports the demanded handlers that the chain of a route leaves out: one class per
+// (site class, request kind).
+func (r *rig) registrationFindings(f func(key, msg string, cs Case)) {
+	for _, kind := range []int{kR1, kR2} {
+		if r.missing[kind] == 0 {
+			continue
+		}
+		done := map[int]bool{}
+		for id := uint8(0); int(id) < len(r.sites); id++ {
+			if r.missing[kind]&(1<<id) == 0 || done[r.sites[id].class] {
+				continue
+			}
+			done[r.sites[id].class] = true
+			beh := make(behVec, len(r.chains[kind]))
+			for i := range beh {
+				beh[i] = bN
+			}
+			cs := Case{Shape: r.sh, Req: ReqSpec{Kind: kind, Beh: beh}, Registration: true}
+			msg := fmt.Sprintf("shape %+v: %s %s: handler h%d (%s) was attached before the route was registered but is not in the route's chain (the chain runs %v of the demanded %v)",
+				r.sh, r.method[kind], r.path[kind], id, r.sites[id], r.judged[kind], literalOf(r, kind))
+			f(fmt.Sprintf("registration|left-out-of-route-chain|%s|%s", siteName[r.sites[id].class], kindName[kind]), msg, cs)
+		}
+	}
+}
+
+func literalOf(r *rig, kind int) []uint8 {
+	_, _, l := refChains(r.sh, &r.d)
+	return l[kind]
 }
 
 // dispatch serves one request of the given kind on the recycled context.
@@ -548,16 +632,21 @@ type verdict struct {
 }
 
 func (r *rig) describe(rs ReqSpec) string {
-	ch := r.chains[rs.Kind]
+	ch := r.judged[rs.Kind]
 	var b strings.Builder
 	fmt.Fprintf(&b, "%s %s, expected chain [", r.method[rs.Kind], r.path[rs.Kind])
+	p := 0
 	for i, id := range ch {
 		if i > 0 {
 			b.WriteString(", ")
 		}
-		bn := "?"
-		if i < len(rs.Beh) && rs.Beh[i] < nBeh {
-			bn = behName[rs.Beh[i]]
+		bn := behName[bN]
+		if r.optional[rs.Kind]&(1<<id) == 0 {
+			bn = "?"
+			if p < len(rs.Beh) && rs.Beh[p] < nBeh {
+				bn = behName[rs.Beh[p]]
+			}
+			p++
 		}
 		fmt.Fprintf(&b, "h%d=%s{%s}", id, r.sites[id], bn)
 	}
@@ -567,12 +656,12 @@ func (r *rig) describe(rs ReqSpec) string {
 
 // exec serves rs and judges it; judge=false only serves it (history).
 func (r *rig) exec(rs ReqSpec, judge bool) (v verdict) {
-	chain := r.chains[rs.Kind]
+	chain := r.judged[rs.Kind]
 	st := r.st
 	for i := range r.sites {
-		st.beh[i] = bN // handlers outside the expected chain: visible and transparent
+		st.beh[i] = bN // handlers outside the enumerated chain (late middleware included): visible and transparent
 	}
-	for p, id := range chain {
+	for p, id := range r.chains[rs.Kind] {
 		st.beh[id] = rs.Beh[p]
 	}
 	pv := r.dispatch(rs.Kind)
@@ -607,15 +696,12 @@ func (r *rig) exec(rs ReqSpec, judge bool) (v verdict) {
 	sp := 0
 	last := -1
 	abortSeen, postSeen := false, false
-	opt := false
 	for _, e := range got {
 		id := uint8(e & 0xff)
 		kind := int(e>>8) & 7
 		switch kind {
 		case evEnter:
-			if r.optional[rs.Kind]&(1<<id) != 0 {
-				opt = true
-			} else if pos[id] < 0 {
+			if pos[id] < 0 {
 				return fail("unexpected-handler:"+siteName[r.sites[id].class]+":"+kindName[rs.Kind], "handler h%d (%s) ran but is not part of this request's chain; trace %s", id, r.sites[id], trace(got))
 			}
 			if seen&(1<<id) != 0 {
@@ -653,10 +739,6 @@ func (r *rig) exec(rs ReqSpec, judge bool) (v verdict) {
 		if (e&flagAb != 0) != abortSeen {
 			return fail("isaborted-wrong", "IsAborted()=%v at %s(h%d) but Abort called=%v; trace %s", e&flagAb != 0, evName[kind], id, abortSeen, trace(got))
 		}
-	}
-	if opt {
-		v.undetermined = true
-		return v
 	}
 	// equality with the reference trace
 	init := 200
@@ -740,6 +822,16 @@ func replay(c *mc.Ctx, raw json.RawMessage) {
 	}
 	if cs.PartC != nil {
 		execPartC(c, *cs.PartC, cs)
+		return
+	}
+	if cs.Registration {
+		if cs.Shape.valid() {
+			build(cs.Shape).registrationFindings(func(key, msg string, x Case) {
+				if x.Req.Kind == cs.Req.Kind {
+					c.Violate(key, msg, cs)
+				}
+			})
+		}
 		return
 	}
 	if v := reproduce(cs); v.key != "" {
@@ -893,6 +985,7 @@ func runJob(c *mc.Ctx, a *agg, j *job) {
 	l := a.get()
 	defer a.put(l)
 	r := build(j.sh)
+	r.registrationFindings(func(key, msg string, cs Case) { c.Violate(key, msg, cs) })
 	type rep struct {
 		key, msg string
 		cs       Case
